@@ -117,6 +117,18 @@ func (s *server) meta(ctx context.Context, sc script, stream grpc.ServerStream) 
 			}
 		}
 	}
+	if strings.HasPrefix(sc.Quirk, "md-") {
+		// what the handler can see of the metadata on the caller's context: its outgoing metadata arrives as
+		// incoming; metadata the caller itself received from upstream, and the outgoing side, stay behind
+		in, _ := metadata.FromIncomingContext(ctx)
+		out, _ := metadata.FromOutgoingContext(ctx)
+		saw := metadata.Pairs("x-saw", fmt.Sprintf("in-up=%v in-down=%v out-down=%v", in.Get("x-upstream"), in.Get("x-down"), out.Get("x-down")))
+		if stream != nil {
+			stream.SetHeader(saw)
+		} else {
+			grpc.SetHeader(ctx, saw)
+		}
+	}
 	if sc.Trailer {
 		if stream != nil {
 			stream.SetTrailer(trlMD)
@@ -257,6 +269,14 @@ func runClient(c tp.TestApiClient, sc script, mkCtx func(deadline bool) (context
 	strictOutcome = sc.Client == "normal"
 	ctx, cancel := mkCtx(sc.Client == "deadline")
 	defer cancel()
+	switch sc.Quirk {
+	case "md-incoming": // the caller is itself a handler: its context carries what IT received
+		ctx = metadata.NewIncomingContext(ctx, metadata.Pairs("x-upstream", "u"))
+	case "md-outgoing":
+		ctx = metadata.AppendToOutgoingContext(ctx, "x-down", "d")
+	case "md-both":
+		ctx = metadata.AppendToOutgoingContext(metadata.NewIncomingContext(ctx, metadata.Pairs("x-upstream", "u")), "x-down", "d")
+	}
 	stop := func(received int) bool { // client-side fault at this point?
 		if sc.Client != "normal" && received == sc.ClientAt {
 			if sc.Client == "cancel" {
@@ -379,6 +399,10 @@ func runClient(c tp.TestApiClient, sc script, mkCtx func(deadline bool) (context
 		}
 		_, err = stream.Recv()
 		tr = append(tr, "err="+outcome(err))
+		if sc.Quirk == "send-after-end" {
+			// the call is over and the client knows: one more Send tells that, the status stays with Recv
+			tr = append(tr, "send-after-end="+outcome(stream.Send(&tp.BidiStreamRequest{Msg: "late"})))
+		}
 		h, _ := stream.Header()
 		tr = append(tr, "header="+userMD(h), "trailer="+userMD(stream.Trailer()))
 	}
@@ -540,6 +564,15 @@ func scripts(thorough bool) []script {
 	}
 	for _, f := range []string{"ok", "status"} {
 		out = append(out, script{Shape: "cstream", HeaderMode: "set", Trailer: true, N: 1, Final: f, ErrAfter: -1, Client: "normal", Quirk: "respond-then"})
+	}
+	for _, q := range []string{"md-incoming", "md-outgoing", "md-both"} {
+		for _, shape := range []string{"unary", "sstream", "cstream", "bidi"} {
+			out = append(out, script{Shape: shape, HeaderMode: "set", N: 1, Final: "ok", ErrAfter: -1, Client: "normal", Quirk: q})
+		}
+	}
+	for _, f := range []string{"ok", "status", "plain"} {
+		out = append(out, script{Shape: "bidi", HeaderMode: "set", Trailer: true, N: 2, Final: f, ErrAfter: 1, Client: "normal", Quirk: "send-after-end"})
+		out = append(out, script{Shape: "bidi", HeaderMode: "none", N: 1, Final: f, ErrAfter: -1, Client: "normal", Quirk: "send-after-end"})
 	}
 	return out
 }
